@@ -74,7 +74,7 @@ func genValue(t *rapid.T, pm *pat.Param) string {
 func gen(t *rapid.T) Case {
 	cfg := pat.GenCfg(t, true)
 	c := Case{Icpt: cfg.IcptName, Domain: rapid.SampledFrom([]string{"", "", "https://x.io", "https://x.io/", "//cdn/"}).Draw(t, "domain")}
-	c.Pool = pat.GenPool(t, cfg, rapid.IntRange(2, 10).Draw(t, "npool"))
+	c.Pool = pat.GenPool(t, cfg, rapid.IntRange(2, rig.Up(10)).Draw(t, "npool"))
 	if rapid.IntRange(0, 3).Draw(t, "registerAll") > 0 {
 		c.Ops = append(c.Ops, life.Op{Kind: "handleMany", Patterns: c.Pool, Methods: []string{"GET"}})
 	}
